@@ -681,6 +681,7 @@ class SharesManager(BaseManager):
 
         # First round using the term map
         include_terms = []
+        wildcard_items: list[set[SharedItem]] = []
         for term in search_query.include_terms:
             subterms = re.split(_QUERY_CLEAN_PATTERN, term)
             for subterm in subterms:
@@ -707,16 +708,22 @@ class SharesManager(BaseManager):
                     if not matching_terms:  # Optimization
                         return [], []
 
-                    include_terms.extend(matching_terms)
+                    # An item only needs to contain one of the words ending
+                    # with the wildcard term
+                    wildcard_items.append(
+                        set().union(*(self._term_map[map_term] for map_term in matching_terms))
+                    )
                 else:
                     if subterm not in self._term_map:  # Optimization
                         return [], []
 
                     include_terms.append(subterm)
 
-        found_items = set(self._term_map[include_terms[0]])
-        for include_term in include_terms:
-            found_items &= set(self._term_map[include_term])
+        item_sets = [set(self._term_map[include_term]) for include_term in include_terms]
+        item_sets.extend(wildcard_items)
+        found_items = item_sets[0]
+        for item_set in item_sets[1:]:
+            found_items &= item_set
 
         # Regular expressions on the remaining items
 
